@@ -20,7 +20,7 @@ Definition str_hostport (s : str) : str :=
   let '(_, found, hp) := rpartition 64 a in hp.
 
 (** all port-related faces of an observation agree with the expected explicit port *)
-Definition port_face_ok (scheme : str) (expected : option N) (o : val) : bool :=
+Definition port_face_gen (check_str : bool) (scheme : str) (expected : option N) (o : val) : bool :=
   let dflt := spec_default_port scheme in
   let shown := match expected with
                | Some x => if opt_N_eq (Some x) dflt then None else Some x
@@ -37,12 +37,14 @@ Definition port_face_ok (scheme : str) (expected : option N) (o : val) : bool :=
       && match nthv i_host_sub o, nthv i_host_port_sub o, nthv i_str o with
          | WStr hs, WStr hps, WStr s =>
              let want := match shown with Some x => hs ++ port_suffix x | None => hs end in
-             str_eqb hps want && str_eqb (str_hostport s) want
+             str_eqb hps want && (negb check_str || str_eqb (str_hostport s) want)
          | WNone, WNone, WStr _ => match expected with None => true | Some _ => false end
          | _, _, _ => false
          end
   | _, _ => false
   end.
+
+Definition port_face_ok := port_face_gen true.
 
 (** value of a port text as the RFC reads it: *DIGIT, 0..65535 *)
 Definition port_text_value (t : str) : option (option N) :=      (* None = invalid *)
@@ -61,6 +63,26 @@ Definition c17_ctor_pred (args : list val) : bool :=
       match port_text_value txt with
       | Some expected => match o with WList _ => port_face_ok scheme expected o | _ => false end
       | None => match o with WErr ValueError => true | _ => false end
+      end
+  | _ => false
+  end.
+
+(** the encoded=True constructor (authority split lazily). args as above.  A valid port text
+    shows the same face; an invalid one (non-numeric, out of range) is rejected with
+    ValueError by EVERY port-dependent accessor, on every look *)
+Definition c17_lazy_pred (args : list val) : bool :=
+  match args with
+  | [WStr scheme; pt; o] =>
+      let txt := match pt with WStr t => t | _ => [] end in
+      match port_text_value txt with
+      | Some expected => match o with WList _ => port_face_gen false scheme expected o | _ => false end   (* str() keeps an encoded=True authority verbatim *)
+      | None =>
+          match o with
+          | WList _ =>
+              forallb (fun i => match nthv i o with WErr ValueError => true | _ => false end)
+                      [i_explicit_port; i_port; i_host_port_sub; i_is_default_port; i_str]
+          | _ => false
+          end
       end
   | _ => false
   end.
